@@ -33,6 +33,10 @@ IMPLEMENTED = {
             'deterministic simulation: history simulator with the dlclose event (explicit, repeated, or by injected garbage collection) placed at arbitrary points of an access history over a real compiled library in both ABI modes; dlopen/dlsym/dlclose of the backend logged by a build-time pass-through shim; model of per-library closed/fetched state and of the library memory',
             'Seeded search over access histories with the close event injected anywhere; every access after the close must raise, no dlsym may reach a handle after its dlclose (observed at the libc seam), repeated close must be silent, and the still-mapped library memory must equal the model (a refused write must not land).',
             'The harness keeps its own reference on the test library so a faulty access is observed, not suffered; outcomes the statement leaves open (re-fetch of a pre-fetched function, addressof, constants after close) are counted, never reported.'),
+    'C35': ('F', 'exploration', 'DESIGN.md 3.10',
+            'deterministic simulation of the pkg-config peer: cffi.pkgconfig.subprocess rebound to a scripted fake child process with injected spawn failures, non-zero exits, death by signal and undecodable output, placed on any (package, flag) query; a slice of runs through a real stub executable; reference translator as oracle',
+            'Seeded search over token sequences and peer failures for flags_from_pkgconfig/merge_flags; every failing or undecodable run must surface as PkgConfigError and every successful one must equal the reference translation including order.',
+            'Weakest fit for simulation (the only nondeterministic party is the child process); backslash outputs and prefix/flag combinations the statement leaves open are not generated.'),
 }
 
 PENDING = {
